@@ -154,8 +154,54 @@ func checkC14(c *Ctx, r *Report) {
 		case mayDisc && !covered[s.Fn]:
 			r.bad("R2", key, c.instrPos(s.Call), "an MQTT DISCONNECT can be sent from a function that is not part of the client-DISCONNECT handling: types "+strings.Join(ts, ", "))
 		case mayDisc:
-			// inside dispatcher code: must be guarded by the dispatched packet being a Disconnect with Duration 0 (R1 decides)
-			r.ok("R2", key, c.instrPos(s.Call), "DISCONNECT send inside the SN dispatcher (guard decided by R1)")
+			// inside dispatcher code: must be guarded by the dispatched packet being a Disconnect with Duration 0 (R1 decides) -
+			// provided the function is entered through the dispatcher only
+			outside := ""
+			seenF := map[*ssa.Function]bool{}
+			var up func(f *ssa.Function, d int)
+			up = func(f *ssa.Function, d int) {
+				if seenF[f] || f == m.snDisp || d > 8 {
+					return
+				}
+				seenF[f] = true
+				for _, g := range c.repoFuncs("gateway") {
+					calls := false
+					allInstrs(g, func(i ssa.Instruction) {
+						switch x := i.(type) {
+						case ssa.CallInstruction:
+							if staticCallee(x.Common()) == f {
+								calls = true
+							}
+							for _, a := range x.Common().Args {
+								if fv, ok := a.(*ssa.Function); ok && fv == f {
+									calls = true
+								}
+								if mc, ok := a.(*ssa.MakeClosure); ok && mc.Fn == ssa.Value(f) {
+									calls = true
+								}
+							}
+						case *ssa.MakeClosure:
+							if x.Fn == ssa.Value(f) {
+								calls = true
+							}
+						}
+					})
+					if !calls {
+						continue
+					}
+					if !covered[g] {
+						outside = fnKey(g)
+						continue
+					}
+					up(g, d+1)
+				}
+			}
+			up(s.Fn, 0)
+			if outside != "" {
+				r.bad("R2", key, c.instrPos(s.Call), "the function sending the MQTT DISCONNECT is also entered from "+outside+", which is not part of the handling of a client DISCONNECT: the will is cancelled although the client sent no plain DISCONNECT")
+			} else {
+				r.ok("R2", key, c.instrPos(s.Call), "DISCONNECT send inside the SN dispatcher and entered through it only (guard decided by R1)")
+			}
 		default:
 			r.ok("R2", key, c.instrPos(s.Call), "types: "+strings.Join(ts, ", "))
 		}
